@@ -111,6 +111,7 @@ type World struct {
 
 	violations []Violation
 
+	caseKey     string
 	nontrivial  bool // set by scenarios whose notion of non-trivial is not schedule based
 	RecordGates bool
 	gateLog     [256]GatePass
@@ -387,6 +388,9 @@ func (t *Task) Note(format string, args ...any) {
 
 // MarkNontrivial lets a scenario with its own notion of a non-trivial case flag the run; Mix adds to the fingerprint.
 func (w *World) MarkNontrivial() { w.nontrivial = true }
+
+// SetCase names the point of a finite case space this run covered (reported as measured coverage of that space).
+func (w *World) SetCase(c string) { w.caseKey = c }
 func (w *World) Mix(s string)     { w.mix(s) }
 func (w *World) SetMaxSteps(n int) { w.maxSteps = n }
 
@@ -640,6 +644,10 @@ type stuckG struct {
 func bubbleGoroutines() []stuckG {
 	buf := make([]byte, 1<<20)
 	n := runtime.Stack(buf, true)
+	for n == len(buf) && len(buf) < 256<<20 {
+		buf = make([]byte, 4*len(buf))
+		n = runtime.Stack(buf, true)
+	}
 	blocks := strings.Split(string(buf[:n]), "\n\n")
 	var out []stuckG
 	self := fmt.Sprintf("goroutine %d ", goid())
@@ -700,13 +708,14 @@ type RunResult struct {
 	SimTime    time.Duration
 	Nontrivial bool
 	TraceHash  uint64
+	Case       string
 }
 
 func (w *World) result() *RunResult {
 	r := &RunResult{
 		Tape: append([]uint32(nil), w.Tape.Recorded()...), Trace: w.trace, Fingerprint: w.fp, Steps: w.Step(),
 		Switches: w.switches, Overlaps: w.overlaps, Faults: map[string]int{}, Truncated: w.truncated,
-		SimTime: time.Since(w.startTime), Hits: map[string]int64{},
+		SimTime: time.Since(w.startTime), Hits: map[string]int64{}, Case: w.caseKey,
 	}
 	for i := 0; i < int(w.npoints); i++ {
 		if f, ok := strings.CutPrefix(w.pointNames[i], "fault:"); ok {
